@@ -1,0 +1,56 @@
+//go:build verif
+
+package mdns
+
+import (
+	"net"
+
+	"github.com/enbility/ship-go/api"
+)
+
+// Hooks for the verification harness in /verif (build tag "verif"). Add-only: nothing
+// here is compiled into a normal build.
+
+// VerifSetProvider injects an mDNS provider the way Start stores the one it selected.
+func (m *MdnsManager) VerifSetProvider(p api.MdnsProviderInterface) {
+	m.mdnsProvider = p
+}
+
+// VerifResolverCallback returns the callback Start hands to the provider.
+func (m *MdnsManager) VerifResolverCallback() api.MdnsResolveCB {
+	return m.processMdnsEntry
+}
+
+// VerifSetReport registers the report receiver the way Start does.
+func (m *MdnsManager) VerifSetReport(r api.MdnsReportInterface) {
+	m.report = r
+}
+
+// VerifParseTxt is the TXT parser both providers feed the resolver callback with.
+func VerifParseTxt(txt []string) map[string]string {
+	return parseTxt(txt)
+}
+
+// VerifShortenString is the truncation NewMDNS applies to brand, model, type and serial.
+func VerifShortenString(s string, maxLen int) string {
+	return shortenString(s, maxLen)
+}
+
+// VerifEntries returns a copy of the entries map taken under the manager's lock
+// (field by field, not through DeepCopy).
+func (m *MdnsManager) VerifEntries() map[string]api.MdnsEntry {
+	m.mux.Lock()
+	defer m.mux.Unlock()
+
+	res := make(map[string]api.MdnsEntry, len(m.entries))
+	for k, v := range m.entries {
+		e := *v
+		e.Categories = append([]api.DeviceCategoryType(nil), v.Categories...)
+		e.Addresses = nil
+		for _, a := range v.Addresses {
+			e.Addresses = append(e.Addresses, append(net.IP(nil), a...))
+		}
+		res[k] = e
+	}
+	return res
+}
